@@ -3,7 +3,7 @@ mcx/props/c19.py (see notes/C19.md, "Hardening pass").  They use the accounting 
 dispatched by c19.case_fn.
 
   dbx    db/dbm/idb/idbm at extreme magnitudes: every decade of the double range outside the 30 central ones, denormals, the
-         smallest / largest normal numbers, python integers beyond 2^62, dB values up to +-3000; x = 0 only recorded
+         smallest / largest normal numbers, python integers 2^62 .. 2^64-1 (larger ones only recorded), dB values up to +-3000; x = 0 only recorded
   gausi  gaus on INTEGER sample grids (every numpy integer type, python-int lists and scalars, integer mu / std)
   spell  str2array: numpy's own print form of int and float arrays (strict), other spellings of the same text that have one
          reading only (padding, repeated / mixed separators, '+' signs, '3.' / '.5'; value-or-ValueError), python numerals
@@ -149,10 +149,18 @@ def fam_dbx(case):
                     A.v(key + K, f'd = {ref.ravel()[j]!r} ({name}): {fwd.__name__}({inv.__name__}(d)) = {z.ravel()[j] if z.shape == ref.shape else z!r}')
             if B._snap(obj) != snap:
                 A.v(f'idb:input-modified{K}', f'idb/idbm changed their argument ({name})')
-    else:   # python integers beyond the int64 range are positive numbers like any other
+    else:   # python integers up to 2^64 - 1 (numpy holds them as int64 / uint64) are positive numbers like any other; from 2^64 on
+        #         numpy makes an object array and db raises an accidental TypeError: outside the statement by the coordinator's
+        #         policy on extreme integers - executed and recorded, not judged (notes/C19.md, proposed_fixes/C19_6.md)
         K = ':big-python-int'
         for v in BIGINTS:
             for name, obj, ref in ((f'int {v}', v, np.float64(v)), (f'[{v}]', [v], np.array([float(v)])), (f'[{v}, 1]', [v, 1], np.array([float(v), 1.0]))):
+                if v >= 2 ** 64:
+                    for fn in (db, dbm):
+                        st, y = call(fn, obj)
+                        A.item((fn.__name__, name), ('exc', type(y).__name__) if st == 'exc' else arr_key(np.asarray(y, dtype=float)), nontrivial=False)
+                        A.stat('python-int>=2^64(not judged)')
+                    continue
                 for fwd, inv, key in ((db, idb, 'db:idb(db(x))!=x'), (dbm, idbm, 'dbm:idbm(dbm(x))!=x')):
                     st, y = call(fwd, obj)
                     A.item((fwd.__name__, name), ('exc', type(y).__name__) if st == 'exc' else arr_key(np.asarray(y, dtype=float)))
